@@ -9,6 +9,10 @@ use std::hash::{Hash, Hasher};
 pub mod sym;
 #[path = "/verif/kani/common/rec_hasher.rs"]
 pub mod rec_hasher;
+// a change that makes the lookup code reach the scalar resolver must stay decidable
+#[path = "/verif/kani/common/f64_stub.rs"]
+pub mod f64_stub;
+use f64_stub::f64_from_str_stub;
 use rec_hasher::Rec;
 
 #[cfg(test)]
@@ -36,6 +40,7 @@ fn sym_key<const N: usize>(buf: &mut [u8; N]) -> usize {
 /// stored key `Yaml::Value(Scalar::String(k))` writes, borrowed or owned.
 #[kani::proof]
 #[kani::unwind(50)]
+#[kani::stub(<f64 as std::str::FromStr>::from_str, f64_from_str_stub)]
 pub fn c20_hash_trace_yaml() {
     let mut buf = [0u8; 4];
     let n = sym_key(&mut buf);
